@@ -95,6 +95,31 @@ func (f *SubscriptionFieldFilter) SkipEvent(ctx *Context, data []byte) (bool, er
 		return true, nil
 	}
 
+	// The event data must be stringified to match against the stringified expected value
+	// This is only necessary when the expected value is a string because all other types
+	// are already the JSON representation of the actual value. Examples:
+	// String: "foo" -> JSON: "\"foo\""
+	// Boolean: true -> JSON: "true"
+	// Number: 42 -> JSON: "42"
+	// Null: null -> JSON: "null"
+	// Both forms are kept apart from expected: expected is compared with every value of the
+	// list, changing it in place would quote it once more for each further value.
+	plain, stringified := expected, expected
+	if expectedDataType == jsonparser.String {
+		// jsonparser.Get returns the raw bytes between the quotes: escape sequences are
+		// decoded first, so that a value with a quote or backslash is compared as the
+		// string it denotes (a variable renders plain) and is not escaped twice
+		unescaped, err := jsonparser.ParseString(expected)
+		if err != nil {
+			return true, err
+		}
+		plain = []byte(unescaped)
+		stringified, err = json.Marshal(unescaped)
+		if err != nil {
+			return true, err
+		}
+	}
+
 	// Scratch buffer for rendering filter template values. Pooled to avoid
 	// per-event allocations.
 	buf := pool.BytesBuffer.Get()
@@ -148,31 +173,6 @@ func (f *SubscriptionFieldFilter) SkipEvent(ctx *Context, data []byte) (bool, er
 					return true, nil
 				}
 
-				// The event data must be stringified to match against the stringified expected value
-				// This is only necessary when the expected value is a string because all other types
-				// are already the JSON representation of the actual value. Examples:
-				// String: "foo" -> JSON: "\"foo\""
-				// Boolean: true -> JSON: "true"
-				// Number: 42 -> JSON: "42"
-				// Null: null -> JSON: "null"
-				// Both forms are kept apart from expected: expected is compared with every value of the
-				// list, changing it in place would quote it once more for each further value.
-				plain, stringified := expected, expected
-				if expectedDataType == jsonparser.String {
-					// jsonparser.Get returns the raw bytes between the quotes: escape sequences are
-					// decoded first, so that a value with a quote or backslash is compared as the
-					// string it denotes (a variable renders plain) and is not escaped twice
-					unescaped, err := jsonparser.ParseString(expected)
-					if err != nil {
-						return true, err
-					}
-					plain = []byte(unescaped)
-					stringified, err = json.Marshal(unescaped)
-					if err != nil {
-						return true, err
-					}
-				}
-
 				// Short circuit if the types are the same we can compare the bytes directly
 				if expectedDataType == valueType {
 					if bytes.Equal(plain, actualRawBytes) {
@@ -189,7 +189,7 @@ func (f *SubscriptionFieldFilter) SkipEvent(ctx *Context, data []byte) (bool, er
 			} else {
 				// If we have more than one segment we always compare the bytes
 				// because the segments are concatenated and the type is always a string
-				if bytes.Equal(expected, actualRawBytes) {
+				if bytes.Equal(plain, actualRawBytes) {
 					return false, nil
 				}
 
@@ -205,7 +205,7 @@ func (f *SubscriptionFieldFilter) SkipEvent(ctx *Context, data []byte) (bool, er
 		// then check if the actual value contains the expected value
 		matches := findArray.FindAllSubmatch(actualRawBytes, -1)
 		if matches == nil {
-			if bytes.Equal(expected, actualRawBytes) {
+			if bytes.Equal(plain, actualRawBytes) {
 				return false, nil
 			}
 			continue
